@@ -4,7 +4,7 @@ EXTENDS TextIO, Json, IOUtils, SequencesExt, CSV
 CONSTANTS Mode, MinN, MaxN, FullTo, Batch, Stride, Offset
 
 NItems == (MaxN - MinN + 1 + Batch - 1) \div Batch
-Picked == SelectSeq([j \in 1..NItems |-> j], LAMBDA j : j % Stride = Offset % Stride)
+Picked == SelectSeq([j \in 1..NItems |-> j], LAMBDA j : (j + (j \div Stride) + (j \div (Stride * Stride))) % Stride = Offset % Stride)
 Descs == <<"", "plain", "two words here", "with > inside", " leading and trailing ", "tab\there",
            "identity 100%", "50% GC %s %d %v", "back\\slash and \"quotes\"", "semi;colon, comma | pipe">>
 BatchJson(b) ==
